@@ -79,7 +79,7 @@ Proof.
     intros E. rewrite E in Hrep. contradiction. }
   destruct (gc_any_holder o (i_active i) p0 (ev_hash e) (nodup_p0 i Hnd) Hact H0) as [j Hj].
   assert (Hj2 : In (ev_hash e) (keys_at (st_p2 (run_stages o i (sst_of sch))) j)).
-  { apply (le_keys _ _ (stages_le_12 o i (sst_of sch))). rewrite stages_p1, stages_p0. exact Hj. }
+  { apply (le_keys _ _ (stages_le_12 o i (sst_of sch))). rewrite stages_p1, stages_p0, recover_keys. exact Hj. }
   rewrite (amem_existsb _ _ j Hj2 (keys_at_lt _ _ _ Hj2)) in Hnone. discriminate.
 Qed.
 
